@@ -8,7 +8,9 @@ use std::collections::{BTreeMap, BTreeSet};
 use std::fmt::Debug;
 use std::sync::Arc;
 
-pub const VERIF: &str = "/verif";
+pub fn verif_dir() -> String {
+    std::env::var("VERIF_DIR").unwrap_or_else(|_| "/verif".to_string())
+}
 
 #[derive(Clone, Copy, PartialEq, Eq, Debug)]
 pub enum Tier {
@@ -105,7 +107,7 @@ pub fn load_known() -> KnownFile {
         // developer switch used when (re)generating the known-findings file: report everything
         return KnownFile::default();
     }
-    let p = format!("{VERIF}/known_findings.json");
+    let p = format!("{}/known_findings.json", verif_dir());
     match std::fs::read_to_string(&p) {
         Ok(s) => serde_json::from_str(&s).unwrap_or_else(|e| {
             eprintln!("MACHINERY ERROR: cannot parse {p}: {e}");
@@ -277,9 +279,9 @@ impl Report {
     /// Writes evidence + replay files, prints verdict lines, returns the process exit code.
     pub fn finish(self) -> i32 {
         let known = load_known();
-        let evdir = std::env::var("VERIF_EVIDENCE_DIR").unwrap_or(format!("{VERIF}/evidence"));
+        let evdir = std::env::var("VERIF_EVIDENCE_DIR").unwrap_or(format!("{}/evidence", verif_dir()));
         let _ = std::fs::create_dir_all(&evdir);
-        let _ = std::fs::create_dir_all(format!("{VERIF}/replays"));
+        let _ = std::fs::create_dir_all(format!("{}/replays", verif_dir()));
         let mut kf_lines = vec![];
         for f in known.findings.iter().filter(|f| f.property == self.prop) {
             if let Some(keys) = self.known_hits.get(&f.id) {
@@ -293,7 +295,7 @@ impl Report {
             let mut h = std::collections::hash_map::DefaultHasher::new();
             use std::hash::{Hash, Hasher};
             format!("{}{}{}{}", job, r.kind, r.history, r.op).hash(&mut h);
-            let path = format!("{VERIF}/replays/{}-{}-{:08x}.json", self.prop, r.kind, h.finish() as u32);
+            let path = format!("{}/replays/{}-{}-{:08x}.json", verif_dir(), self.prop, r.kind, h.finish() as u32);
             let file = json!({"property": self.prop, "tier": self.tier.s(), "job": job, "kind": r.kind, "detail": r.detail, "seed": r.seed, "history": r.history, "op": r.op, "count_in_run": n, "kf_key": r.kf_key});
             std::fs::write(&path, serde_json::to_string_pretty(&file).unwrap()).unwrap();
             viol_lines.push(format!("VIOLATION property={} replay={}", self.prop, path));
